@@ -10,7 +10,7 @@ HAND = [c.replace("iso ", "fs ", 1) for c in C11.HAND] + [c.replace("iso ", "rc 
 
 def generate(rng, tier, corpus_only=False):
     # the boundary cases HAND are in corpus/C12.txt, which every run executes first
-    n = 220 if tier == "quick" else 2000
+    n = 180 if tier == "quick" else 2000
     cases = []
     cases += C11.gen_cases(rng, n, "fs", light=True)
     cases += C11.gen_cases(rng, n // 3, "rc", light=True)
